@@ -76,6 +76,10 @@ type QueryObs struct {
 	Watchdog      bool             `json:"watchdog,omitempty"`
 	ContractBreak []string         `json:"contract_breaches,omitempty"`
 	Upstream      []string         `json:"upstream,omitempty"`
+	// QuestionAsked: upstream packets of this window that ask the client's
+	// own question (name and type); 0 with other upstream traffic = the reply
+	// was composed from a cached entry for the question
+	QuestionAsked int `json:"question_asked_upstream"`
 	// Restart: restarts / re-entries recognised in the packet log (restart kinds)
 	Restart *RestartObs `json:"restart,omitempty"`
 
@@ -369,6 +373,9 @@ func (s *stackRun) ask(client string, q QuerySpec) *QueryObs {
 			continue
 		}
 		obs.Packets++
+		if p.QType == q.Type && p.QNameL == strings.ToLower(q.Name) {
+			obs.QuestionAsked++
+		}
 		if p.Transport == "tcp" {
 			obs.TCPPackets++
 		}
